@@ -460,7 +460,9 @@ class Address:
             return (self.addrType, self.addrNet, self.addrAddr, self.addrRoute._tuple())
 
     def __hash__(self):
-        return hash(self._tuple())
+        # the route is not part of it, addresses with and without a route
+        # can be equal
+        return hash((self.addrType, self.addrNet, self.addrAddr))
 
     def __eq__(self, arg):
         # try an coerce it into an address
